@@ -317,7 +317,25 @@ def run_binder(u, out):
                 name = '%s(%s)' % (cn, rn)
                 check_conv(name, cc(rc), t, out, {'part': 'binder', 'term': ti, 'rw': rn, 'comb': cn})
         check_conv('beta_norm_conv', beta_norm_conv(), t, out, {'part': 'binder', 'term': ti, 'rw': 'beta_norm', 'comb': 'none'})
-    out['samples'].append({'binder_term': str(terms[1])})
+    # rewriting with higher-order-pattern theorems (the instance is beta-normalised inside rewr_conv) on inputs that carry their
+    # own redexes inside and outside the matched part
+    from kernel.term import Not, And
+    Q = Var('Q', TFun(NatType, BoolType))
+    R = Var('R', TFun(NatType, NatType, BoolType))
+    A = Var('A', BoolType)
+    a = Var('a', NatType)
+    red = lambda v, body, arg: Comb(Lambda(v, body), arg)
+    hterms = [Not(Forall(a, Q(a))), Not(Forall(a, red(x, Q(x), a))), Not(Exists(a, red(x, Q(x + Nat(0)), a))), And(A, Not(Forall(a, red(x, Q(x), a)))),
+              Not(Forall(a, R(a, red(y, y, a)))), Lambda(z, Not(Forall(a, red(x, R(z, x), a)))), Not(Exists(a, Q(red(x, x, a)))), Not(Forall(a, red(x, Q(x), red(y, y, a)))),
+              Not(Not(Exists(a, red(x, Q(x), a)))), red(z, Not(Forall(a, R(z, a))), Nat(0)), Not(Forall(a, Forall(z, red(x, R(x, z), a))))]
+    hrws = [('not_all', rewr_conv('not_all')), ('not_exists', rewr_conv('not_exists')), ('not_all_sym', rewr_conv('not_all', sym=True)), ('double_neg', rewr_conv('double_neg'))]
+    hcombs = combs + [('then_beta', lambda c: then_conv(top_conv(try_conv(c)), beta_norm_conv())), ('else_beta', lambda c: else_conv(c, beta_norm_conv()))]
+    for ti, t in enumerate(hterms):
+        for rn, rc in hrws:
+            check_conv(rn, rc, t, out, {'part': 'binder', 'term': 1000 + ti, 'rw': rn, 'comb': 'none'})
+            for cn, cc in hcombs:
+                check_conv('%s(%s)' % (cn, rn), cc(rc), t, out, {'part': 'binder', 'term': 1000 + ti, 'rw': rn, 'comb': cn})
+    out['samples'].append({'binder_term': str(terms[1]), 'higher_order_rewrite_term': str(hterms[1])})
 
 
 def mono_pool(Tn):
